@@ -1,7 +1,6 @@
 package main
 
 import (
-	"runtime"
 	"strconv"
 	"strings"
 
@@ -83,7 +82,7 @@ func runC13(s *scn.Scenario, res *scn.Result) {
 		lastKind, mixed := "", false
 		for i, op := range s.History {
 			if op.Kind == "gc" {
-				runtime.GC()
+				zzsim.ForceGC()
 				res.Faults["forced_gc"]++
 				continue
 			}
